@@ -816,3 +816,26 @@ Proof.
   destruct (minimal c) eqn:M; cbn [andb]; [|reflexivity].
   destruct (nonneg_head c); [exact HI|reflexivity].
 Qed.
+
+(* ---------- Eq and Ord are consistent; the order is a strict total order ---------- *)
+Theorem int_eq_cmp_consistent a b : valid_int a -> valid_int b ->
+  (int_eq a b = true <-> int_cmp a b = Ok Eq).
+Proof.
+  intros Ha Hb. rewrite (int_cmp_spec a b Ha Hb).
+  destruct (int_eq_spec a b Ha Hb) as [He _]. rewrite He. rewrite <- Z.compare_eq_iff.
+  split; [intros ->; reflexivity|intros [= ->]; reflexivity].
+Qed.
+
+Theorem int_cmp_antisym a b : valid_int a -> valid_int b ->
+  forall o, int_cmp a b = Ok o -> int_cmp b a = Ok (CompOpp o).
+Proof.
+  intros Ha Hb o. rewrite (int_cmp_spec a b Ha Hb), (int_cmp_spec b a Hb Ha).
+  intros [= <-]. rewrite Z.compare_antisym. reflexivity.
+Qed.
+
+Theorem int_cmp_trans a b c : valid_int a -> valid_int b -> valid_int c ->
+  int_cmp a b = Ok Lt -> int_cmp b c = Ok Lt -> int_cmp a c = Ok Lt.
+Proof.
+  intros Ha Hb Hc. rewrite (int_cmp_spec a b Ha Hb), (int_cmp_spec b c Hb Hc), (int_cmp_spec a c Ha Hc).
+  intros [= H1] [= H2]. f_equal. rewrite Z.compare_lt_iff in *. lia.
+Qed.
